@@ -73,6 +73,9 @@ func (pe *shellVariablesEncoder) doEncode(w *io.Writer, node *CandidateNode, pat
 		}
 		return nil
 	case AliasNode:
+		if node.Alias == nil {
+			return fmt.Errorf("alias *%v has no target node, cannot encode it as shell variables", node.Value)
+		}
 		return pe.doEncode(w, node.Alias, path)
 	default:
 		return fmt.Errorf("Unsupported node %v", node.Tag)
